@@ -540,8 +540,8 @@ func describe(h []porcupine.Operation, keys [][]byte) []string {
 
 func main() {
 	r := vk.Start("C31")
-	r.Rule("sequential: filter size 4..2048 bytes (half from boundary sizes), 1-3 distinct hashers of {keccak,blake2b,fnv} in random order, 20..160/400 ops (Add new/duplicate key of 0..40 bytes with the caller's buffer overwritten afterwards, MayContain of an added key, MayContain of a fresh key, Clear, full sweep of all keys added since the last Clear); non-trivial = at least one Add; shape = (size class, hasher list, #adds bucket, Clear seen). concurrent: 2-5 adders + 2-5 queriers over 4..24 shared keys on a mostly small filter (4..48 bytes, so adders and queriers touch the same bytes), two rounds separated by a Clear at a quiescent point; every history goes to porcupine (partition by key) and the race detector watches the run")
-	r.Assume("hash functions are deterministic", "Clear is only called at quiescent points (the property states race-freedom for adding and querying)", "race detector (-race) and porcupine v1.3.0 are trusted")
+	r.Rule("sequential: filter size 4..2048 bytes (half from boundary sizes), 1-3 distinct hashers of {keccak,blake2b,fnv} in random order, 20..160/400 ops (Add new/duplicate key of 0..40 bytes with the caller's buffer overwritten afterwards, MayContain of an added key, MayContain of a fresh key, Clear, full sweep of all keys added since the last Clear); non-trivial = at least one Add; shape = (size class, hasher list, #adds bucket, Clear seen). concurrent: 2-5 adders + 2-5 queriers over 4..24 shared keys on a mostly small filter (4..48 bytes, so adders and queriers touch the same bytes), two rounds separated by a Clear at a quiescent point; every history goes to porcupine (partition by key) and the race detector watches the run. burst: 60/200 cases x 100/500 rounds of {Clear, 3-8 Adds of fresh distinct keys from concurrent goroutines, sweep of all of them} on a 2-4 byte filter (1-3 hashers) whose hashers are decorated with a rendezvous (every Compute of a round returns once all have arrived; optionally followed by 0-3 yields) so that the Adds update the same bytes at the same moment; oracle = no false negative for a key whose Add returned after the last Clear")
+	r.Assume("hash functions are deterministic", "Clear is only called at quiescent points (the property states race-freedom for adding and querying)", "the rendezvous hasher decorator returns the wrapped hasher's digest and only delays Compute, which Add/MayContain call outside their mutex", "race detector (-race) and porcupine v1.3.0 are trusted")
 	r.MinShapes(30)
 
 	nSeq := r.N(500, 5000)
